@@ -538,12 +538,12 @@ func TestC09Free(t *testing.T) { refcountFree(t, "C09") }
 func TestC08Free(t *testing.T) { refcountFree(t, "C08") }
 
 func refcountFree(t *testing.T, prop string) {
-	drive(t, prop, "one RefCount (always referenced by an anchor reference, resolver returns fresh value ids) with real parallelism: goroutine 0 replaces the context again and again (each replacement drops the value and resolves afresh), the others AddRef with a recording callback (every 4th nil), Release some of them, call released() handles and run Access with a callback that returns at once; afterwards the final value is awaited; oracle: the resolver is never in two calls at once, no callback is told about a value whose release function has already run, and the last state delivered to every unreleased reference's callback is the final value (a reference added while a value was being replaced must not be left with the replaced value); C08: after the last reference is released every value the resolver produced has had its release function called exactly once; half of the cases run beside a goroutine forcing preemption through runtime.GC; non-trivial iff >= 2 goroutines; distinct by program", 16,
+	drive(t, prop, "one RefCount (always referenced by an anchor reference, resolver returns fresh value ids) with real parallelism: goroutine 0 replaces the context again and again (each replacement drops the value and resolves afresh), the others AddRef with a recording callback (every 4th nil), Release some of them, call released() handles (also from inside a reference callback, which runs under the container's mutex) and run Access with a callback that returns at once; afterwards the final value is awaited; oracle: the resolver is never in two calls at once, no callback is told about a value whose release function has already run, and the last state delivered to every unreleased reference's callback is the final value (a reference added while a value was being replaced must not be left with the replaced value); C08: after the last reference is released every value the resolver produced has had its release function called exactly once; half of the cases run beside a goroutine forcing preemption through runtime.GC; non-trivial iff >= 2 goroutines; distinct by program", 16,
 		func(cs Case, v *ev.Verdict) {
 			f := &failer{v: v}
 			var nextVal, inResolver atomic.Int32
-			relAt := make([]atomic.Int32, 4096) // relAt[id % len] == id once value id's release func ran
-			relN := make([]atomic.Int32, 4096)  // number of release calls per value id
+			relAt := make([]atomic.Int32, 4096)             // relAt[id % len] == id once value id's release func ran
+			relN := make([]atomic.Int32, 4096)              // number of release calls per value id
 			handles := make([]atomic.Pointer[func()], 4096) // released() handle of each value
 			invalidated := make([]atomic.Bool, 4096)        // released() was called for this value
 			resolver := func(ctx context.Context, released func()) (int, func(), error) {
@@ -571,6 +571,8 @@ func refcountFree(t *testing.T, prop string) {
 			var vmu sync.Mutex
 			var views []*view
 			refs := map[*view]*refcount.Ref[int]{}
+			var validating atomic.Bool // references reject values only while the goroutines run
+			validating.Store(true)
 			add := func(nilCb bool) (*view, *refcount.Ref[int]) {
 				vw := &view{}
 				var cb func(bool, int, error)
@@ -584,6 +586,13 @@ func refcountFree(t *testing.T, prop string) {
 						vw.resolved, vw.val = resolved, val
 						vw.n++
 						vw.mu.Unlock()
+						// a validating reference: it rejects some values on sight, from inside its
+						// callback (the RefCount's mutex is held by the caller of the callback)
+						if validating.Load() && resolved && val%7 == 3 && val < len(handles) {
+							if h := handles[val].Load(); h != nil && invalidated[val].CompareAndSwap(false, true) {
+								(*h)()
+							}
+						}
 					}
 				}
 				ref := rc.AddRef(cb)
@@ -662,6 +671,8 @@ func refcountFree(t *testing.T, prop string) {
 			})
 			stopGC.Store(true)
 			gwg.Wait()
+			validating.Store(false)
+			rc.AddRef(nil).Release() // a callback that was deciding meanwhile is through
 			// released() makes the value be dropped (the anchor reference is still held): every value
 			// it was called for gets released (one that never is shows up as a stalled case)
 			waitUntil(func() bool {
